@@ -176,6 +176,7 @@ structure Obs where
   len : Nat              -- payload length
   size : Nat             -- serialised length
   flags : Nat
+  valid : Bool           -- a valid bundle of its own (CheckValid; parses back and re-serialises identically)
   identOk : Bool         -- source, creation timestamp, destination, report-to, lifetime as the original
   types : List Nat       -- type codes of the extension blocks carried, in order
   blocksOk : Bool        -- every carried block is a copy (flags, CRC type, content) of the original's
@@ -187,6 +188,7 @@ deriving Repr, DecidableEq
 structure FragmentsOk (x : In) (start total : Nat) (fs : List Obs) : Prop where
   nonempty : fs ≠ []
   size : ∀ f ∈ fs, f.size ≤ x.mtu
+  valid : ∀ f ∈ fs, f.valid = true
   flag : ∀ f ∈ fs, f.flags = x.flags ||| flagIsFragment
   ident : ∀ f ∈ fs, f.identOk = true
   total : ∀ f ∈ fs, f.total = total
@@ -198,6 +200,7 @@ structure FragmentsOk (x : In) (start total : Nat) (fs : List Obs) : Prop where
 
 /-! The clauses as executable tests (what the driver evaluates on the implementation's output). -/
 def okSize (x : In) (fs : List Obs) : Bool := fs.all (fun f => f.size ≤ x.mtu)
+def okValid (fs : List Obs) : Bool := fs.all (fun f => f.valid)
 def okFlag (x : In) (fs : List Obs) : Bool := fs.all (fun f => f.flags == (x.flags ||| flagIsFragment))
 def okIdent (fs : List Obs) : Bool := fs.all (fun f => f.identOk)
 def okTotal (total : Nat) (fs : List Obs) : Bool := fs.all (fun f => f.total == total)
@@ -219,6 +222,7 @@ def okSlices (x : In) (start : Nat) (fs : List Obs) : Bool :=
 def fragmentsFail (x : In) (start total : Nat) (fs : List Obs) : Option String :=
   if fs.isEmpty then some "empty-list"
   else if !okSize x fs then some "fragment-larger-than-mtu"
+  else if !okValid fs then some "fragment-not-a-valid-bundle"
   else if !okFlag x fs then some "fragment-flag"
   else if !okIdent fs then some "identity-differs"
   else if !okTotal total fs then some "total-length-wrong"
@@ -230,10 +234,11 @@ def fragmentsFail (x : In) (start total : Nat) (fs : List Obs) : Option String :
   else none
 
 /-- The model's fragment as an observation (identity fields and block contents are copied by
-construction: `fragmentPrimaryBlock` copies the fields, the loop copies the blocks). -/
+construction: `fragmentPrimaryBlock` copies the fields, the loop copies the blocks; validity is what
+`fragValid` tests in the loop, given a valid input). -/
 def Frag.obs (x : In) (f : Frag) : Obs :=
   { off := f.off, total := f.total, len := f.data.length, size := fragSize x f,
-    flags := x.flags ||| flagIsFragment, identOk := true, types := f.carried.map (·.type),
+    flags := x.flags ||| flagIsFragment, valid := true, identOk := true, types := f.carried.map (·.type),
     blocksOk := true, data := f.data }
 
 end Dtn7.Frag
